@@ -345,7 +345,12 @@ func (r *Runner) FreeCall(method string, size, k int, nsw bool, cancel string, d
 	if kind == "corr" || kind == "corrstream" {
 		lv = "count"
 	}
-	e.QS.Set(tok, &QFParams{QF: "thr", K: k, Lv: lv, Orig: req})
+	qp := &QFParams{QF: "thr", K: k, Lv: lv, Orig: req}
+	if r.QFDelayPct > 0 && int(tok*7919%100) < r.QFDelayPct {
+		d := time.Duration(1+tok%3) * time.Millisecond
+		qp.Delay = func() { time.Sleep(d) }
+	}
+	e.QS.Set(tok, qp)
 	ctx := NewManualCtx(tok)
 	cfg := e.Cfgs[size]
 	node := e.Node(1 + int(tok)%len(e.Servers))
@@ -355,7 +360,7 @@ func (r *Runner) FreeCall(method string, size, k int, nsw bool, cancel string, d
 	}
 	obj := &callObj{}
 	from := tr.Len()
-	tr.Emit("StubCall", 0, tok, "method", method, "mgr", 0)
+	tr.Emit("StubCall", 0, tok, "method", method, "mgr", 0, "size", size, "k", k)
 	done := make(chan struct{})
 	go func() {
 		defer close(done)
